@@ -132,6 +132,8 @@ def classify(chk, obs, verdicts):
         drift += v["drift"]
         for law in v["failed"]:
             fid = explain_law(law, types[i - 1])
+            if law == "transitive" and v["trans"] and any(has_union_generic(types[x - 1]) for x in v["trans"]):
+                fid = "KF-C20-2"      # the relation gives no answer (error) for a right-hand type with a union generic argument
             if fid in chk.kf:
                 chk.known(fid)
                 continue
